@@ -90,13 +90,14 @@ R.dict_sum("QuicPacketSpace", "sent_packets", "g_ae", "ae1", "QuicSentPacket")
 
 R.invariant("QuicPacketRecovery", ["self._cc.bytes_in_flight == self.g_total"])
 
-# Delivery handlers and the probe callback are opaque callables.  ASSUMPTION (recorded in the evidence of every function
-# that runs them): they neither raise nor touch the loss-recovery state listed here - the sent-packet maps and counters
+# Delivery handlers and the probe callback are opaque callables.  SUMMARY used at their call sites - since the handler
+# table (contracts/quic_handlers.py, engine/handlerframe.py, qual handlers::delivery) no longer an assumption but a
+# consequence of the verified contracts of every callable the current source can register: they neither raise nor touch the loss-recovery state listed here - the sent-packet maps and counters
 # of the packet spaces, the QuicSentPacket records, the congestion controller, the pacer and the recovery object's own
 # fields.  (The handlers registered by connection.py / stream.py update stream send buffers, ack queues, flow-control
 # and connection-id bookkeeping; none of them references QuicPacketRecovery, a congestion controller or sent_packets.)
 R.consts["OPAQUE_CALL"] = dict(
-    note="delivery handlers / send_probe do not raise and do not modify QuicPacketSpace.{sent_packets, ack_eliciting_in_flight, loss_time, largest_acked_packet}, any QuicSentPacket field, the congestion controller, the pacer or QuicPacketRecovery's fields; everything else is havocked",
+    note="(summary justified by handlers::delivery + the handlers' frame contracts in C08, see there for the residual precondition of on_data_delivery) delivery handlers / send_probe do not raise and do not modify QuicPacketSpace.{sent_packets, ack_eliciting_in_flight, loss_time, largest_acked_packet}, any QuicSentPacket field, the congestion controller, the pacer or QuicPacketRecovery's fields; everything else is havocked",
     preserves=[
         "QuicPacketSpace.sent_packets", "QuicPacketSpace.ack_eliciting_in_flight", "QuicPacketSpace.loss_time", "QuicPacketSpace.largest_acked_packet",
         "QuicPacketSpace.g_flight", "QuicPacketSpace.g_ae",
